@@ -174,12 +174,21 @@ be_pair_transfer(struct bufferevent *src, struct bufferevent *dst,
 	}
 
 	if (n) {
-		BEV_RESET_GENERIC_READ_TIMEOUT(dst);
+		/* dst has just read and src has just written: restart those
+		 * two intervals -- but only where a timeout is supposed to be
+		 * running (direction enabled and not suspended; a transfer can
+		 * suspend dst at its high-water mark, and a flush ignores the
+		 * enabled bits), and stop src's write timeout once it has
+		 * nothing left to write. */
+		if ((dst->enabled & EV_READ) && !BEV_UPCAST(dst)->read_suspended)
+			BEV_RESET_GENERIC_READ_TIMEOUT(dst);
 
-		if (evbuffer_get_length(dst->output))
-			BEV_RESET_GENERIC_WRITE_TIMEOUT(dst);
+		if ((src->enabled & EV_WRITE) &&
+		    !BEV_UPCAST(src)->write_suspended &&
+		    evbuffer_get_length(src->output))
+			BEV_RESET_GENERIC_WRITE_TIMEOUT(src);
 		else
-			BEV_DEL_GENERIC_WRITE_TIMEOUT(dst);
+			BEV_DEL_GENERIC_WRITE_TIMEOUT(src);
 	}
 
 	bufferevent_trigger_nolock_(dst, EV_READ, 0);
@@ -215,6 +224,14 @@ be_pair_outbuf_cb(struct evbuffer *outbuf,
 			be_pair_transfer(downcast(bev_pair), downcast(partner), 0);
 		}
 	}
+	/* Output that could not be handed over is now waiting to be written:
+	 * its write timeout runs (an interval that is already running is not
+	 * restarted). */
+	if (info->n_added && evbuffer_get_length(outbuf) &&
+	    (downcast(bev_pair)->enabled & EV_WRITE) &&
+	    !bev_pair->bev.write_suspended &&
+	    !event_pending(&downcast(bev_pair)->ev_write, EV_TIMEOUT, NULL))
+		BEV_RESET_GENERIC_WRITE_TIMEOUT(downcast(bev_pair));
 
 	decref_and_unlock(downcast(bev_pair));
 }
